@@ -1509,7 +1509,9 @@ def run(ctx):
         "cross-checked with urllib on ';'-free input); all op sequences of depth <= %d over a %d-op universe x 2 "
         "initial queries and random histories of length <= 25 with a fresh re-parse after every step; POST round "
         "trips in urlencoded/multipart/auto mode as list/tuple/MultiDict, all CR/LF/dash contents up to length %d; "
-        "decode(cs) for %s.  non-trivial = contains an escape/'+'/';' (queries), has a file (POST), every history"
+        "decode(cs) for %s; ONE long-lived Request per history (reads, mutations, held GetDicts, raw edits, body "
+        "replacement, copy/copy_get/decode) compared with fresh objects after every step, caller-argument immutability of "
+        "Request.blank, and the same calls in different orders in fresh interpreters.  non-trivial = contains an escape/'+'/';' (queries), has a file (POST), every history"
         % (n_ex, ctx.scale(30000, 250000), depth, len(U), ctx.scale(4, 6), ", ".join(css)))
     ctx.extra["exhaustive"] = False
     ctx.assume += [
